@@ -248,7 +248,8 @@ class Session(AbstractSession):
         val._check_all_readers_valid_and_same_type(sort_indices)
         r_readers = tuple(reversed(sort_indices))
 
-        raw_data = val.raw_array_from_parameter(self, 'readers', r_readers[0])
+        # np.asarray: an IndexedStringField yields a python list of str, which cannot be fancy-indexed
+        raw_data = np.asarray(val.raw_array_from_parameter(self, 'readers', r_readers[0]))
 
         if index is None:
             raw_index = np.arange(len(raw_data))
@@ -261,7 +262,7 @@ class Session(AbstractSession):
         acc_index = acc_index[index]
 
         for r in r_readers[1:]:
-            raw_data = val.raw_array_from_parameter(self, 'readers', r)
+            raw_data = np.asarray(val.raw_array_from_parameter(self, 'readers', r))
             fdata = raw_data[acc_index]
             index = np.argsort(fdata, kind='stable')
             acc_index = acc_index[index]
